@@ -62,6 +62,7 @@ type instRT struct {
 	healthN    int
 	logCount   map[string]int
 	pointCount map[string]int
+	wonCreates int
 	healthNA   atomic.Int64 // lean mode
 	curObj     atomic.Pointer[objRT]
 	startSem   chan struct{}
@@ -1140,6 +1141,18 @@ func (s *Sim) point(name, id string) {
 		}
 	}
 	if d > 0 {
+		s.mu.Lock()
+		rec := &StallRec{Point: name, FromT: s.now(), ToT: -1}
+		for _, in := range s.insts {
+			if in.spec.ID == id {
+				rec.Inst = in.idx
+			}
+		}
+		s.tr.StallRecs = append(s.tr.StallRecs, rec)
+		s.mu.Unlock()
 		s.sleepI(d)
+		s.mu.Lock()
+		rec.ToT = s.now()
+		s.mu.Unlock()
 	}
 }
